@@ -84,7 +84,23 @@ def gen(rng, tier):
     memory = rng.random() < 0.15
     if memory:
         steps = [st for st in steps if st["op"] not in ("reopen", "restart")]
-    return {"gtf": gtf, "fmf": fmf, "steps": steps, "memory": memory, "warn_error": rng.random() < 0.2, "fault_profile": rng.random() < (0.2 if not memory else 0.5), "fault_seed": rng.getrandbits(32)}
+    case = {"gtf": gtf, "fmf": fmf, "steps": steps, "memory": memory, "warn_error": rng.random() < 0.2, "fault_profile": rng.random() < (0.2 if not memory else 0.5), "fault_seed": rng.getrandbits(32)}
+    if not memory and rng.random() < 0.3:
+        # a second handle, opened right after create_db and idle since, makes the last update: a merge of lines that agree
+        # (columns) with lines of the update before it, which the first handle filed in the meantime
+        case["stale_writer"] = True
+        prev = [feat(rng, gtf) for _ in range(rng.randint(1, 3))]
+        again = []
+        for f in prev:
+            g = mf(f["cols"], [kv for kv in f["attrs"] if kv[0] != "Name"] + [["Name", rng.sample(["n1", "n4", "n5"], rng.choice([1, 2]))]], f["extra"])
+            again.append(g)
+        tail = [st for st in steps[-1:] if st["op"] in ("reopen", "restart", "none")]
+        steps[len(steps) - len(tail):] = [
+            {"op": "update", "feats": prev, "strategy": rng.choice(["merge", "create_unique", "merge"]), "form": rng.choice(["path", "list", "gen"])},
+            {"op": rng.choice(["none", "gc", "reopen"])},
+            {"op": "update", "feats": again, "strategy": "merge", "form": rng.choice(["path", "list", "gen", "string"]), "stale_writer": True},
+        ] + tail
+    return case
 
 
 def run(case):
@@ -125,6 +141,8 @@ def run(case):
             return True
 
         node = w.node()
+        other = None
+        filed_later = set()
         alive = False
         last_strategy = [None]
         hard = False
@@ -190,7 +208,20 @@ def run(case):
             except Undefined:
                 out["discarded"] = True
                 break
-            r = call(node, req)
+            if st.get("stale_writer") and other is not None and not expect_fail and not model.auto_issued:
+                # no new '<key>_n' is needed (the handle's cached counters do not matter): the merge goes through the second,
+                # long-open handle and must find the entries the first handle filed after it was opened
+                probes["merge_update_through_a_second_handle_opened_before_earlier_updates"] = 1
+                if any(p is not None and p in filed_later for p in placed):
+                    probes["second_handle_merges_into_an_entry_filed_after_it_was_opened"] = 1
+                r = call(other, dict(req, h="h2"))
+            else:
+                r = call(node, req)
+            if not expect_fail and r["ok"] and k == "update":
+                filed_later.update(a[0] for a in model.auto_issued)
+            if k == "create" and r["ok"] and case.get("stale_writer") and other is None:
+                other = w.node()
+                call(other, {"op": "open", "h": "h2", "db": "a.db"})
             if expect_fail:
                 probes["strategy_error_collision"] = 1
                 if r["ok"]:
